@@ -274,7 +274,9 @@ class LG:
             look = f"def sel{i}_a({p}): return {p}.decoy{m}\n" if r.random() < 0.5 else ""
             after = f"def sel{i}_z({p}): return {p}.decoy2{m}\n" if r.random() < 0.5 else ""
             if s == "@DEFNAME":
-                fn = f"{look}def sel{i}({p}): return ({p}.a{m}, {p}.f{m}({m}))\n{after}"
+                # (now and then with type hints on the parameter and the result)
+                hint, rhint = (": 'Evt'", " -> 'tuple'") if r.random() < 0.3 else ("", "")
+                fn = f"{look}def sel{i}({p}{hint}){rhint}: return ({p}.a{m}, {p}.f{m}({m}))\n{after}"
             else:
                 fn = f"{look}def sel{i}({p}):{doc}\n    return ({p}.a{m}, {p}.f{m}({m}))\n{after}"
             return t, "plain", sup, nt or bool(look or after), form, fn + f"def case{i}(ds):\n    r = ds.Select(sel{i})\n    return r\n"
@@ -344,6 +346,15 @@ def judge_events(ctx, events, t, cx, sup, nt, form, text):
             got = probe.behaviour(fn)
         except Exception as e:
             got = frozenset([((), f"<compile/eval failed: {type(e).__name__}: {e}>")])
+        # what was recorded is a lambda one can write down: its text parses back to the same structure
+        try:
+            back = astx.parse_expr(astx.unparse(lam))
+            if not astx.struct_eq(back, lam) and astx.unparse(back) != astx.unparse(lam):
+                raise SyntaxError("text reads back as another lambda")
+            ctx.count("recorded-lambda-text-round-trips")
+        except SyntaxError as e:
+            ctx.violation(f"recorded-lambda-cannot-be-written-down:{t}", f"layout '{t}': the recorded lambda unparses to {astx.unparse(lam)[:160]!r} ({e})\n{text}", witness)
+            continue
         if got != ev["expected"]:
             ctx.violation(f"wrong-lambda-recorded:{t}", f"layout '{t}' in context {cx}: passed callable behaves {probe.describe(ev['expected'], 2)}, recorded lambda behaves {probe.describe(got, 2)} ({astx.unparse(lam)[:160]})\n{text}", witness)
         else:
